@@ -167,6 +167,7 @@ structure TablesOk : Prop where
   btoks : bt.tokensOk = true
   bcyc : bt.bondCycleFixed = true
   bexpr : bt.expressiblePreserved = true
+  bpre : bt.prefixFree = true
 
 def headerOf (m : MolV) : Header :=
   ⟨m.name, "SMALL".toList, "USER_CHARGES".toList, (m.atoms.length : Int), some (m.bonds.length : Int)⟩
